@@ -5,6 +5,8 @@ fn meta_for(check: &str, tier: Tier) -> Option<CheckMeta> {
         "C01" => qv::c01::meta("C01", tier),
         "C02" => qv::c02::meta(tier),
         "C03" => qv::c01::meta("C03", tier),
+        "C04" => qv::c04::meta(tier),
+        "C05" => qv::c05::meta(tier),
         "C09" => qv::c09::meta(tier),
         "C12" => qv::c12::meta(tier),
         "C13" => qv::c13::meta(tier),
@@ -19,6 +21,8 @@ fn worker_for(ctx: &WorkerCtx) -> Report {
         "C01" => qv::c01::worker(ctx, "C01"),
         "C02" => qv::c02::worker(ctx),
         "C03" => qv::c01::worker(ctx, "C03"),
+        "C04" => qv::c04::worker(ctx),
+        "C05" => qv::c05::worker(ctx),
         "C09" => qv::c09::worker(ctx),
         "C12" => qv::c12::worker(ctx),
         "C13" => qv::c13::worker(ctx),
